@@ -149,7 +149,7 @@ def run(run):
                         run.violated("R1", pk + "|upper", "point `%s` is compared `<=` against the segment end base+len; with adjacent segments the first byte of the next segment is attributed to this one (sibling queries use `<`)" % fmt(point), site)
                     else:
                         run.holds("R1", pk + "|upper", "upper bound forms: %s" % ups, site)
-        run.floor("segment containment conditions", nconds, 6)
+        run.floor("segment containment conditions", nconds, 3)
 
     run.guarded("R1", r1)
 
@@ -187,7 +187,7 @@ def run(run):
                         bad.append(ex)
                 key = "%s|scan-exits-only-on-hit" % fn["name"]
                 run.check("R5", key, not bad, "the scan over memory_segments is left (%s) outside a successful containment test: the result depends on the order of the segments (nothing sorts them; bare-metal images list flash before RAM)" % ", ".join(sorted({b["k"] for b in bad})), F.loc(node))
-        run.floor("segment scans", n, 6)
+        run.floor("segment scans", n, 3)
 
     run.guarded("R5", r5)
 
@@ -365,6 +365,6 @@ def run(run):
                             run.check("R4", key, good, "%s must be `(characteristics & mask) != 0`; found %s" % (field, fmt(t)), site)
                             continue
                         run.undecided("R4", key, "flag source outside the vocabulary: %s" % fmt(t), site)
-        run.floor("MemorySegment flag initialisers", n, 15)
+        run.floor("MemorySegment flag initialisers", n, 8)
 
     run.guarded("R4", r4)
